@@ -96,10 +96,10 @@ PROPS = {
                     'mathematical segment boundaries of the canonical serialisation; unbounded in entry count and store size.',
     ),
     'C17': dict(
-        level='proof', verus=['c17_compressor', 'c17_add_data', 'c19_caps'],
+        level='proof', verus=['c17_compressor', 'c17_add_data', 'c19_caps', 'c06_files'],
         trusted_base=[A_TOOLS, A_EXTRACT, 'A-ENC: the encoder constructors (flate2, liblzma, bzip2, zstd) do not panic inside their DOCUMENTED level ranges, which are stated as preconditions of stand-in constructors in the unit',
                       'A-PATH: std::path / OsStr / String plumbing called by add_data (PathBuf::from, parent, file_name, strip_prefix, to_string_lossy, starts_with, clone, format!) does not panic; its RESULTS are arbitrary in the unit (no specification), so the proof holds for whatever std::path reports; sha2 / hex / BTreeMap / BTreeSet calls likewise'],
-        assumptions=['claimed for TWO parts: "a compression level the encoder cannot honour is reported as an error or mapped to a supported level, never a crash", and "destinations that cannot be split into a directory and a file name are reported as errors": PackageBuilder::add_data (every file setter ends there) has no reachable panic for ANY destination string. Capability text: validate_caps_text / validate_suffix / FileCaps::new / from_str are verified to return Ok or Err for every text without panicking (unit c19_caps, the debug_assert! included; validate_capset itself - split, to_uppercase, table lookup - is not under contract). The metadata setters are not claimed',
+        assumptions=['claimed for TWO parts: "a compression level the encoder cannot honour is reported as an error or mapped to a supported level, never a crash", and "destinations that cannot be split into a directory and a file name are reported as errors": PackageBuilder::add_data (every file setter ends there) has no reachable panic for ANY destination string. Capability text: validate_caps_text / validate_suffix / FileCaps::new / from_str are verified to return Ok or Err for every text without panicking (unit c19_caps, the debug_assert! included; validate_capset itself - split, to_uppercase, table lookup - is not under contract). The `expect` on narrowing the file sizes to 32 bits in prepare_data cannot fail (block b12 of unit c06_files). The metadata setters are not claimed',
                      'incompleteness, stated: because std::path results are arbitrary in the unit, an `unwrap` that std::path semantics would justify is NOT provable here and would be reported (the two unwraps repaired by 8440da6 were not justified: 69 of the 1365 destinations over {/ . .. a} up to 5 symbols panicked)',
                      'R1: all compression cfg features treated as enabled, zstdmt off'],
         explanation='Verbatim body of TryFrom<CompressionWithLevel> for Compressor: every encoder constructor call is reached only with a level inside the documented range (precondition obligations), out-of-range levels return Err, and the variant constructed matches the variant requested. Verbatim body of PackageBuilder::add_data: every unwrap / expect / index on a std::path result would be a precondition obligation - there is none left, each case returns Error::InvalidDestinationPath.',
@@ -172,10 +172,10 @@ PROPS['C13'] = dict(
     technique='contract-based deductive verification (Verus) of the EVR/NEVRA comparison structure over an uninterpreted string comparison',
 )
 PROPS['C09'] = dict(
-    level='proof', verus=['c09_from_entries', 'c09_blocks', 'c14_writers', 'c07_payload', 'c16_offsets', 'c17_compressor'],
+    level='proof', verus=['c09_from_entries', 'c09_blocks', 'c14_writers', 'c07_payload', 'c16_offsets', 'c17_compressor', 'c06_files'],
     trusted_base=[A_TOOLS, A_EXTRACT, 'A-LEAF-LINK: IndexData::append contract = K:k_append_* (bounded) on the real function; write_index contract proved in unit c14_writers',
                   'assumed std specification of slice::sort_by (permutation, no earlier element compares Greater than a later one)', 'A-UTF8: String::as_bytes is uninterpreted'],
-    assumptions=['PARTIAL: decided are the header layout produced by Header::from_entries / create_region_tag (region tag + trailer, ascending tags, aligned in-range non-overlapping offsets, store = aligned concatenation), the 8-byte signature padding, the cpio 4-byte alignment arithmetic and the lead defaults. BLOCK contracts on verbatim statement ranges of PackageBuilder::prepare_data (the function as a whole is out of reach) cover the rpmlib() requirements per feature used (b2), the accumulation of the file-capabilities flag (b3) and the large-file entry framing (b4); Compressor::try_from builds the variant requested (c17). NOT covered: distinctness of emitted tags, non-zero counts, payload order = header order, how the flags for zstd / large files are derived',
+    assumptions=['PARTIAL: decided are the header layout produced by Header::from_entries / create_region_tag (region tag + trailer, ascending tags, aligned in-range non-overlapping offsets, store = aligned concatenation), the 8-byte signature padding, the cpio 4-byte alignment arithmetic and the lead defaults. BLOCK contracts on verbatim statement ranges of PackageBuilder::prepare_data (the function as a whole is out of reach) cover the rpmlib() requirements per feature used (b2), the accumulation of the file-capabilities flag (b3) and the large-file entry framing (b4); Compressor::try_from builds the variant requested (c17). the large-file format is used exactly when the file sizes add up to more than u32::MAX, and the sizes are then 64-bit under LONGFILESIZES (blocks b13, b12 of unit c06_files). NOT covered: distinctness of emitted tags, non-zero counts, payload order = header order, how the zstd flag is derived',
                  'precondition of from_entries: the laid-out data fits i32 offsets (< 2 GiB) and fewer than 2^26 records - headers beyond that are not representable in the format'],
     explanation='Header::from_entries (verbatim, closure contract spliced on the comparator, `for record in &mut` desugared to an index loop): the result is wf, entry 0 is the region tag (BIN, count 16) pointing at a 16-byte trailer equal to ser_entry(region, 7, -16*(n+1), 16), the other entries are the input records sorted by ascending tag, each at the type-aligned end of its predecessors, and the store is exactly the aligned concatenation of the encoded data followed by the trailer; unbounded in record count and data size.',
 )
